@@ -397,6 +397,7 @@ func init() {
 		c := NewCtx(p, "X", "quick")
 		c.quiet = true
 		ruleTrimCutset(c, "TRIM-CUTSET", p.ModulePkgs())
+		ruleLastElementSkipped(c, "LAST-ELEMENT-SKIPPED", p.ModulePkgs())
 		ruleFirstDecides(c, "FIRST-DECIDES", p.ModulePkgs())
 		ruleFormatData(c, "FORMAT-DATA", p.ModulePkgs())
 		ruleNilBreak(c, "NIL-ELEMENT-BREAK", p.ModulePkgs())
